@@ -7,14 +7,28 @@ From Coq Require Import List NArith Bool Arith.
 Import ListNotations.
 From Mos Require Import spec.LspEdits model.Utf Gen.EditsConsts model.Edits proofs.EditsProofs.
 
-(* For ALL old/new texts (any characters, any line ends) and any diff whose chunks partition them: the edits are in
-   range, ordered and non-overlapping, and applying them to the old text in the LSP manner yields the new text. *)
+(* For ALL old/new texts (any characters, any line ends) and ANY diff function (no assumption: chunks that do not
+   add up to both texts are detected and not used): the edits are in range, ordered and non-overlapping, and applying
+   them to the old text in the LSP manner yields the new text. *)
 Theorem C17_edits_reproduce_new_text : forall (diff : text -> text -> list chunk) old new,
-  partitions (diff old new) old new ->
   apply_edits old (get_text_edits diff old new) = Some new /\
   in_range old (get_text_edits diff old new) /\ ordered_disjoint old (get_text_edits diff old new).
 Proof. exact get_text_edits_correct. Qed.
 Print Assumptions C17_edits_reproduce_new_text.
+
+(* A diff that partitions CR-free text is used as it is (the whole-document answer is the fallback only). *)
+Theorem C17_chunkwise_when_diff_sound : forall (diff : text -> text -> list chunk) old new,
+  partitions (diff old new) old new -> has_cr old = false ->
+  get_text_edits diff old new = gte rk_new (diff old new).
+Proof. exact get_text_edits_chunkwise. Qed.
+Print Assumptions C17_chunkwise_when_diff_sound.
+
+(* ... and why the validation is needed: chunks with a character missing (what dissimilar 1.0.3 returns for
+   neighbouring multi-byte characters that share bytes, defect F-C17c) give edits that lose that character. *)
+Theorem C17_unsound_diff_refuted : exists cs old new, old_of cs = old /\ new_of cs <> new /\ has_cr old = false /\
+  apply_edits old (gte rk_new cs) <> Some new.
+Proof. exact unsound_diff_refuted. Qed.
+Print Assumptions C17_unsound_diff_refuted.
 
 (* The chunk-wise computation (three-chunk rewrite, RangeKeeper) for ALL chunk lists over CR-free old text. *)
 Theorem C17_chunk_edits_correct : forall cs, has_cr (old_of cs) = false ->
@@ -50,7 +64,7 @@ Print Assumptions C17_guard.
 
 (* The request handler: with no diagnostics the answer is a list of edits that reproduces the formatter's text. *)
 Theorem C17_formatting_reproduces : forall diff format (diagnostic : Type) (error : list diagnostic) old,
-  error = [] -> partitions (diff old (format old)) old (format old) ->
+  error = [] ->
   exists es, do_formatting diff format diagnostic error (Some (Some old)) = Some es /\
              apply_edits old es = Some (format old) /\ in_range old es /\ ordered_disjoint old es.
 Proof. exact formatting_reproduces. Qed.
